@@ -239,16 +239,7 @@ def run(ctx, env):
     elif adt:
         ctx.ob("R2.3", body.path, "error-kind-switch", False, "no switch on the error kind found (unrecognised shape, fail closed)")
     # R2.4
-    nsw = 0
-    for b in sorted(body.live_blocks()):
-        t = body.term(b)
-        if t["k"] != "switch":
-            continue
-        nsw += 1
-        e, neg = strip_not(an.op(body, t["op"]))
-        kind, ok, why = classify_cond(an, body, e)
-        ctx.ob("R2.4", body.path, "cond:%s" % kind, ok, why, site=body.line(b))
-    ctx.floor("R2.4", body.path, "branch conditions", nsw, 2)
+    branch_conditions_rule(ctx, an, body, "R2.4")
     # R2.5 feed-back
     feed_back_rule(ctx, prog, an, body, pcs)
     # R2.6
@@ -381,6 +372,21 @@ def wrappers_rule(ctx, prog, an):
                 why = "PartialParse{version=%s, remaining=copy(%s)}; parser input=%s" % (vv, canon(src)[:120] if src else "?", canon(peel(parse_call[3][0]))[:120] if parse_call else "?")
         ctx.ob("R2.2", path, "partial-carries-original-bytes", good, why, site=site(b.span))
     ctx.floor("R2.5", "wrappers", "version wrappers", n, 4)
+
+
+def branch_conditions_rule(ctx, an, body, rid):
+    """Every branch of the packet loop is decided by an emptiness test of the current input, an enum discriminant or
+    a drop flag: nothing else (contents, lengths, counters) can end the loop or skip an element."""
+    nsw = 0
+    for b in sorted(body.live_blocks()):
+        t = body.term(b)
+        if t["k"] != "switch":
+            continue
+        nsw += 1
+        e, neg = strip_not(an.op(body, t["op"]))
+        kind, ok, why = classify_cond(an, body, e)
+        ctx.ob(rid, body.path, "cond:%s" % kind, ok, why, site=body.line(b))
+    ctx.floor(rid, body.path, "branch conditions", nsw, 2)
 
 
 def feed_back_rule(ctx, prog, an, body, pcs, rid="R2.5", support=True):
